@@ -53,6 +53,8 @@ def units(tier):
     us.append({'k': 'invalid'})
     for f in range(len(LOT_TOKENS)):
         us.append({'k': 'lotsoup', 'first': f})
+    for f in range(len(ALIQ_TOKENS)):
+        us.append({'k': 'aliqsoup', 'first': f})
     for slot in ('twp', 'rge'):
         for form in range(len(OCR_FORMS)):
             us.append({'k': 'ocr', 'slot': slot, 'form': form})
@@ -272,6 +274,17 @@ LOT_TOKENS = ['Lot 1', 'Lots 1', 'Lot 1(40.00)', '1(40.10)', '2(39.50)', 'Lot 2 
               '()', 'Lot']
 
 
+ALIQ_TOKENS = ['N/2', 'S½', 'North Half', 'E2', 'of the', 'of', 'Northwest', 'Northeast', 'South-East', 'South West', 'N.E.', 'NE', 'SW', 'NE¼',
+               'NW/4', 'Quarter', 'Half', 'One', '1/4', 'Lot 1', ',']
+
+
+def aliqsoup_texts(first, depth=3):
+    import itertools
+    for L in range(1, depth + 1):
+        for tail in itertools.product(range(len(ALIQ_TOKENS)), repeat=L - 1):
+            yield ' '.join([ALIQ_TOKENS[first]] + [ALIQ_TOKENS[i] for i in tail])
+
+
 def lotsoup_texts(first, depth=3):
     import itertools
     for L in range(1, depth + 1):
@@ -282,6 +295,10 @@ def lotsoup_texts(first, depth=3):
 def run_unit(unit, tier):
     acc = Acc()
     k = unit['k']
+    if k == 'aliqsoup':
+        for text in aliqsoup_texts(unit['first'], 3):
+            judge_tract(acc, text)
+        return acc.result()
     if k == 'lotsoup':
         for text in lotsoup_texts(unit['first'], 3 if tier == 'quick' else 4):
             judge_tract(acc, text)
